@@ -50,7 +50,10 @@ Inductive expr :=
 | Hoist1 (n1 : nat) (e1 : expr) (body : expr)
 | Hook (first : expr) (args : list expr)
 | Tpl1 (q0 : string) (e : expr) (q1 : string)                            (* `q0${e}q1` *)
-| Tpl2 (q0 : string) (e1 : expr) (q1 : string) (e2 : expr) (q2 : string). (* `q0${e1}q1${e2}q2` *)
+| Tpl2 (q0 : string) (e1 : expr) (q1 : string) (e2 : expr) (q2 : string)  (* `q0${e1}q1${e2}q2` *)
+| OptMCall0 (o : expr) (m : string)              (* o?.m() *)
+| OptMCall1 (o : expr) (m : string) (a : expr)   (* o?.m(a) *)
+| Guard (n : nat) (e : expr) (body : expr).      (* (t_n = e, t_n == null ? undefined : body) *)
 
 Definition tenv := nat -> value.
 Definition upd (t : tenv) (n : nat) (v : value) : tenv := fun m => if Nat.eqb m n then v else t m.
@@ -105,6 +108,9 @@ Definition tpl1_tail (q0 : string) (v : value) (q1 : string) (s : st) : out * st
 Definition tpl2_tail (q0 : string) (v1 : value) (q1 : string) (v2 : value) (q2 : string) (s : st) : out * st :=
   bind (do_str v1 s) (fun r1 s2 => bind (do_str v2 s2) (fun r2 s3 =>
     (Ret (cat (cat (cat (cat (VStr q0) r1) (VStr q1)) r2) (VStr q2)), s3))).
+
+(** What an optional link short-circuits on (the model has one nullish value). *)
+Definition nullish (v : value) : bool := match v with VUndef => true | _ => false end.
 
 Fixpoint eval (e : expr) (s : st) : out * st :=
   match e with
@@ -168,6 +174,20 @@ Fixpoint eval (e : expr) (s : st) : out * st :=
          to the evaluation of LATER substitutions; the representative taken here coerces after all of them
          have been evaluated (the standard one coerces each right after its evaluation) *)
       bind (eval e1 s) (fun v1 s1 => bind (eval e2 s1) (fun v2 s2 => tpl2_tail q0 v1 q1 v2 q2 s2))
+  | OptMCall0 o m =>
+      bind (eval o s) (fun vo s1 =>
+        if nullish vo then (Ret VUndef, s1)
+        else bind (fire (EvGet vo m) s1) (fun vf s2 => fire (EvCallT vf vo []) s2))
+  | OptMCall1 o m a =>
+      (* the whole rest of the chain -- the read of the method, the argument -- is skipped when the receiver is nullish *)
+      bind (eval o s) (fun vo s1 =>
+        if nullish vo then (Ret VUndef, s1)
+        else bind (fire (EvGet vo m) s1) (fun vf s2 =>
+             bind (eval a s2) (fun va s3 => fire (EvCallT vf vo [va]) s3)))
+  | Guard n e1 body =>
+      bind (eval e1 s) (fun v s1 =>
+        let s1' := (fst s1, upd (snd s1) n v) in
+        if nullish v then (Ret VUndef, s1') else eval body s1')
   end.
 
 (* ---- the rewriter (binary + only), children first, counter threaded ---- *)
@@ -302,6 +322,22 @@ Fixpoint rw (e : expr) (c : nat) : expr * nat :=
   | Tpl2 q0 e1 q1 e2 q2 =>
       if is_lit e1 || is_lit e2 then (e, c)
       else let '(e1', c1) := rw e1 c in let '(e2', c2) := rw e2 c1 in rw_tpl2 q0 e1' q1 e2' q2 c2
+  | OptMCall0 o m =>
+      (* [to_dd_cond_expr] runs BEFORE the parts of the chain are visited: the guard temporary comes first, the receiver is
+         rewritten next, and the call on the guard temporary -- an identifier, captured once more -- is instrumented last;
+         a chain on a literal receiver, or with a method that is not configured, is left alone and its parts are visited *)
+      if instr m && negb (is_lit o)
+      then let '(o', c1) := rw o (S c) in
+           let '(body, c2) := rw_mcall0 (Tmp c) m c1 in
+           (Guard c o' body, c2)
+      else let '(o', c1) := rw o c in (OptMCall0 o' m, c1)
+  | OptMCall1 o m a =>
+      if instr m && negb (is_lit o)
+      then let '(o', c1) := rw o (S c) in
+           let '(a', c2) := rw a c1 in
+           let '(body, c3) := rw_mcall (Tmp c) m a' c2 in
+           (Guard c o' body, c3)
+      else let '(o', c1) := rw o c in let '(a', c2) := rw a c1 in (OptMCall1 o' m a', c2)
   | _ => (e, c)
   end.
 
@@ -319,6 +355,8 @@ Fixpoint src (e : expr) : Prop :=
   | MCall1 o _ a => src o /\ src a
   | Tpl1 _ e1 _ => src e1
   | Tpl2 _ e1 _ e2 _ => src e1 /\ src e2
+  | OptMCall0 o _ => src o
+  | OptMCall1 o _ a => src o /\ src a
   | _ => False
   end.
 
@@ -345,6 +383,9 @@ Fixpoint temps_in (lo hi : nat) (e : expr) : Prop :=
   | Hook f args => temps_in lo hi f /\ (fix go (l : list expr) : Prop := match l with [] => True | a :: r => temps_in lo hi a /\ go r end) args
   | Tpl1 _ e1 _ => temps_in lo hi e1
   | Tpl2 _ e1 _ e2 _ => temps_in lo hi e1 /\ temps_in lo hi e2
+  | OptMCall0 o _ => temps_in lo hi o
+  | OptMCall1 o _ a => temps_in lo hi o /\ temps_in lo hi a
+  | Guard n e1 b => lo <= n < hi /\ temps_in lo hi e1 /\ temps_in lo hi b
   end.
 
 Definition agree_below (lo : nat) (t t' : tenv) : Prop := forall n, n < lo -> t n = t' n.
